@@ -154,7 +154,7 @@ func init() {
 	})
 	register(&Property{
 		ID: "C03",
-		Explanation: "Decides necessary conditions of corruption reporting: (mac-before-decrypt) Key.Open decrypts and returns nil only after poly1305Verify succeeded; (open-error-used) at every Key.Open call site the error is examined and no nil-error return is reachable from a failed Open; (nil-only-after-hash) blob and file load paths return success only after the hash comparison; (accumulator) errors appended to the local error lists of checkPackInner, checker.checkTree, loadSnapshotTreeIDs and Checker.LoadIndex reach the result or a len()!=0 test before any success return; (checkpack-guards) checkPackInner succeeds only after download, sha256-of-stream == pack ID and header decode; (check-exit) in runCheck every nil-error return lies on the false edge of one errors-found flag, every error received from the three checker channels sets that flag on every path (sole exception: orphaned packs) and a non-empty LoadIndex error list forces failure. Not decided: that every byte flip is detected (strength of Poly1305/SHA-256, zstd framing).",
+		Explanation: "Decides necessary conditions of corruption reporting: (mac-before-decrypt) Key.Open decrypts and returns nil only after poly1305Verify succeeded; (open-error-used) at every Key.Open call site the error is examined and no nil-error return is reachable from a failed Open; (nil-only-after-hash) blob and file load paths return success only after the hash comparison; (accumulator) errors appended to the local error lists of checkPackInner, checker.checkTree, loadSnapshotTreeIDs and Checker.LoadIndex reach the result or a len()!=0 test before any success return; (checkpack-guards) checkPackInner succeeds only after download, sha256-of-stream == pack ID and header decode; (check-exit) in runCheck every nil-error return lies on the false edge of one errors-found flag, every error received from the three checker channels sets that flag on every path (sole exception: orphaned packs) and a non-empty LoadIndex error list forces failure; (cache-result-provenance) the blob cache used by mount and dump (bloblru.GetOrCompute) returns success only on a cache hit or with the results of the caller's own computation, returns the cached blob on a hit and never inserts the result of a failed computation — a waiter for a parallel download that failed must not report success (added after a seeded change). Not decided: that every byte flip is detected (strength of Poly1305/SHA-256, zstd framing).",
 		Assumptions: commonAssumptions,
 		Technique:   "static analysis: CFG edge cuts + path-sensitive flag/nil flow + error-accumulator discipline (go/ssa)",
 		AllConfigs:  true,
@@ -169,8 +169,11 @@ func init() {
 			ruleCheckPackGuards(c)
 			ruleCheckExit(c, false)
 			ruleCheckFreshCache(c)
+			ruleCacheResultProvenance(c)
 		},
 		Controls: []Control{
+			{Name: "waiter-returns-without-recheck", File: "internal/bloblru/cache.go",
+				Old: "	blob, ok = c.get(id)\n	if ok {", New: "	blob, ok = c.get(id)\n	if ok || isComputing {", Rule: "cache-result-provenance"},
 			{Name: "ignore-tree-errors-in-check", File: "cmd/restic/cmd_check.go",
 				Old: "	for err := range errChan {\n		errorsFound = true\n		switch e := err.(type) {", New: "	for err := range errChan {\n		switch e := err.(type) {", Rule: "check-exit"},
 			{Name: "drop-errs-test-in-checkPack", File: "internal/repository/checker.go",
